@@ -525,3 +525,10 @@ PROPS['C12']['rule'] += _MT_RULE
 # the AVX2 kernels as compiled into an AVX512 build (code under #ifdef __AVX512__ inside the AVX2 header)
 PROPS['C13']['jobs'] += [J('h_lanes', 'fast5', 300_000, 15_000_000, only='c13', wq=4, wt=16, tag='avx512-build', class_prefix='avx512-build:')]
 PROPS['C02']['jobs'] += [J('h_lanes', 'fast5', 600_000, 1, only='c02', wq=4, wt=16, tiers=['quick'], tag='avx512-build', class_prefix='avx512-build:')]
+
+# technique / level texts: mention the program-context dimensions added in rounds 3 and 4
+for _p in ('C01', 'C02', 'C03', 'C04', 'C05', 'C06', 'C07', 'C08', 'C09', 'C10', 'C11', 'C13', 'C14', 'C15', 'C16', 'C17'):
+    PROPS[_p]['technique'] += '; the same generators run as concurrent callers (four threads inside the routine at once) on plain and ThreadSanitizer builds, and on -DNDEBUG builds'
+PROPS['C12']['technique'] += '; transforms, tree builders and bulk copies entered by several application threads at once (plain + ThreadSanitizer builds)'
+for _p in ('C01', 'C09', 'C10', 'C15'):
+    PROPS[_p]['technique'] += '; static-initialisation-time probe of the scalar routines'
